@@ -42,9 +42,10 @@ SliceIndices(a, b, s, n) ==
      ELSE <<IF a = NoneV THEN n - 1 ELSE Clamp(adj(a), -1, n - 1),
             IF b = NoneV THEN -1 ELSE Clamp(adj(b), -1, n - 1), st>>
 
-RECURSIVE RangeSeq(_, _, _)
-RangeSeq(a, b, s) == IF (s > 0 /\ a >= b) \/ (s < 0 /\ a <= b) THEN <<>>
-                     ELSE <<a>> \o RangeSeq(a + s, b, s)
+\* list(range(a, b, s)) without recursion (levels of real plotfiles have hundreds of boxes)
+RangeLen(a, b, s) == IF s > 0 THEN (IF a >= b THEN 0 ELSE (b - a + s - 1) \div s)
+                     ELSE (IF a <= b THEN 0 ELSE (a - b + (-s) - 1) \div (-s))
+RangeSeq(a, b, s) == [i \in 1..RangeLen(a, b, s) |-> a + (i - 1) * s]
 \* list(range(*slice(a,b,s).indices(n)))  -- 0-based positions
 PySlice(a, b, s, n) == LET t == SliceIndices(a, b, s, n) IN RangeSeq(t[1], t[2], t[3])
 
